@@ -242,6 +242,20 @@ def make_node_class(nspec: dict, classes: dict, uid: str):
         '__module__': GEN_MODULE,
         '__qualname__': clsname,
     }
+    generic = nspec.get('generic')
+    if generic is not None:
+        # the documented way to derive a concrete node from a generic one: build_node(Base, **dependencies) with
+        # dependencies_default merged into the call by the engine's wrapper
+        from ml_pipeline_engine.node import build_node
+        bare = dict(attrs)
+        bare['__qualname__'] = clsname + '_G'
+        process.__annotations__ = {}
+        gbase = type(clsname + '_G', (base,), bare)
+        setattr(_gen, clsname + '_G', gbase)
+        cls = build_node(gbase, node_name=name, class_name=clsname,
+                         attrs={k: v for k, v in attrs.items() if k not in ('process', '__module__', '__qualname__')},
+                         dependencies_default=dict(generic.get('defaults') or {}), **ann)
+        return cls
     cls = type(clsname, (base,), attrs)
     setattr(_gen, clsname, cls)
     return cls
@@ -273,10 +287,14 @@ def get_classes(spec: dict) -> dict:
     if len(_CLASS_CACHE) > 64:
         for k in list(_CLASS_CACHE)[:32]:
             for c in _CLASS_CACHE.pop(k).values():
-                try:
-                    delattr(_gen, c.__name__)
-                except AttributeError:
-                    pass
+                for nm in (c.__name__, c.__name__ + '_G'):
+                    try:
+                        delattr(_gen, nm)
+                    except AttributeError:
+                        pass
+                # build_node registers the derived class in the globals of its own module
+                import ml_pipeline_engine.node.node as _nn
+                _nn.__dict__.pop(c.__name__, None)
     classes = {}
     for nspec in spec['nodes']:
         classes[nspec['name']] = make_node_class(nspec, classes, uid)
